@@ -1193,6 +1193,12 @@ Proof. unfold flowT. rewrite flat_map_app, in_app_iff. tauto. Qed.
 Lemma namesT_app T1 T2 : namesT (T1 ++ T2) = namesT T1 ++ namesT T2.
 Proof. unfold namesT. apply flat_map_app. Qed.
 
+Lemma flowT_single r L : flowT [(r, L)] = flow L.
+Proof. unfold flowT. cbn. apply app_nil_r. Qed.
+
+Lemma namesT_single r L : namesT [(r, L)] = names L.
+Proof. unfold namesT. cbn. apply app_nil_r. Qed.
+
 Section S2.
   Variable add_from add_from_r : node -> node -> list triple -> list triple.
   Hypothesis Hok : add_from_ok add_from.
@@ -1323,5 +1329,340 @@ Section S2.
     exists L. split; [exact HT|].
     destruct (s_memo _ _ _ W r L HT) as [e' [He' Hm']]. rewrite He in He'. injection He' as <-.
     rewrite Hm in Hm'. now injection Hm'.
+  Qed.
+
+  Lemma stop_of_hit m e : hit m e = true -> stopf m e = true.
+  Proof. destruct e; cbn [stopf]; auto. Qed.
+
+  Lemma feeds_leaf es a k e' :
+    In a apps -> feeds wf pt ex (a_ins a) (a_ind a) = Some es -> nth_error es k = Some e' ->
+    exists q, nth_error (a_ins a) k = Some q /\
+      ((exists i, e' = ESrc i /\ In i (a_ind a) /\ pt = false /\ ~ In q srcs) \/ elookup q ex = Some e').
+  Proof.
+    intros Ha Hf Hk.
+    assert (Hlen : length es = length (a_ins a)) by (eapply feeds_length; eauto).
+    assert (Hlt : k < length (a_ins a)).
+    { rewrite <- Hlen. apply nth_error_Some. congruence. }
+    destruct (nth_error (a_ins a) k) as [q|] eqn:Eq; [|apply nth_error_None in Eq; lia].
+    exists q. split; [reflexivity|].
+    destruct (feeds_nth wf pt ex _ _ _ k q Hf Eq) as [e0 [He0 Hn]].
+    rewrite Hk in Hn. injection Hn as ->.
+    destruct (pt || memb q (w_srcs wf)) eqn:Ec; [right; exact He0|].
+    left. apply orb_false_iff in Ec. destruct Ec as [Ep Em]. apply memb_false in Em.
+    exists (nth k (a_ind a) 0). split; [reflexivity|]. split; [|split; [exact Ep | exact Em]].
+    apply nth_In. destruct (app_parts wf Hwf a Ha) as [_ [_ [_ [_ Hl]]]]. lia.
+  Qed.
+
+  Lemma ids_miss X st T a :
+    WS X st T -> In a apps -> ~ In (a_out a) (map fst T) ->
+    forall i tg, In i (tx_ids (a_tx a)) -> 2 <= tg -> memo_find (tg, i) (g_memo st) = None.
+  Proof.
+    intros W Ha HnT i tg Hi Htg.
+    destruct (memo_find (tg, i) (g_memo st)) as [n|] eqn:Em; [|reflexivity]. exfalso.
+    destruct (s_keys _ _ _ W _ _ (memo_find_In _ _ _ Em) Htg) as [r' [L' [e' [HT [He' Ek]]]]].
+    destruct (in_dec Nat.eq_dec r' srcs) as [Hr | Hr].
+    - rewrite (src_expr r' Hr) in He'. injection He' as <-. cbn in Ek. injection Ek as -> _. lia.
+    - destruct (tool_expr r' e' He' Hr) as [a' [es [Ha' [Eo [_ [_ [_ [Kk Ki]]]]]]]].
+      rewrite Kk in Ek. rewrite <- Ek in Ki. cbn [snd] in Ki.
+      assert (a = a').
+      { apply (own_unique a a' i); auto; unfold own_ids; apply in_app_iff; auto. }
+      subst a'. apply HnT. rewrite Eo. apply in_map_iff. exists (r', L'). auto.
+  Qed.
+
+  Lemma add_step X st T r e :
+    WS X st T -> elookup r ex = Some e -> ~ In r (map fst T) ->
+    (In r srcs \/ exists a, find_app wf r = Some a /\ forall q, In q (a_ins a) -> In q (map fst T)) ->
+    exists L st2, add_expr add_from false e None st = Some (lnode L, st2) /\
+      WS X (set_memo (key_of e) (lnode L) st2) (T ++ [(r, L)]) /\
+      g_next st <= g_next st2 /\
+      mpres (g_memo st) (g_memo (set_memo (key_of e) (lnode L) st2)).
+  Proof.
+    intros W He HnT Hcase.
+    assert (Hmiss : memo_find (key_of e) (g_memo st) = None).
+    { destruct (memo_find (key_of e) (g_memo st)) as [n|] eqn:Em; [|reflexivity]. exfalso.
+      destruct (hit_in_T X st T r e n W He Em) as [L [HT _]]. apply HnT.
+      apply in_map_iff. exists (r, L). auto. }
+    rewrite (add_expr_None_eq add_from false e st Hmiss).
+    set (c := g_next st). set (st0 := snd (fresh st)).
+    assert (Hinv := s_inv _ _ _ W).
+    assert (Hinv0 : WInv st0) by (apply WInv_fresh; exact Hinv).
+    assert (Hcur0 : cur_ok c st0) by (apply cur_ok_freshW; exact Hinv).
+    assert (Hm0 : g_memo st0 = g_memo st) by reflexivity.
+    assert (Htr0 : g_tr st0 = g_tr st) by reflexivity.
+    assert (Hn0 : g_next st0 = S c) by reflexivity.
+    (* the shape of e *)
+    assert (Hform :
+      (In r srcs /\ e = ESrc r) \/
+      (~ In r srcs /\ exists a es, In a apps /\ a_out a = r /\ find_app wf r = Some a /\
+         feeds wf pt ex (a_ins a) (a_ind a) = Some es /\ inst es (a_tx a) = Some e /\
+         (forall q, In q (a_ins a) -> In q (map fst T)))).
+    { destruct (in_dec Nat.eq_dec r srcs) as [Hr | Hr].
+      - left. split; [exact Hr|]. rewrite (src_expr r Hr) in He. now injection He.
+      - right. split; [exact Hr|]. destruct Hcase as [F | [a [Hf Hq]]]; [contradiction|].
+        destruct (tool_expr r e He Hr) as [a' [es [Ha' [Eo [Hf' [Hfe [Hi _]]]]]]].
+        rewrite Hf in Hf'. injection Hf' as <-. exists a, es. auto 10. }
+    (* the leaves of a tool expression are memoised or are sources *)
+    assert (Hleaves : forall a es, In a apps -> feeds wf pt ex (a_ins a) (a_ind a) = Some es ->
+      (forall q, In q (a_ins a) -> In q (map fst T)) ->
+      forall k e', nth_error es k = Some e' -> stopf (g_memo st) e' = true).
+    { intros a es Ha Hfe Hq k e' Hk.
+      destruct (feeds_leaf es a k e' Ha Hfe Hk) as [q [Hqk [[i [-> _]] | Hl]]]; [reflexivity|].
+      apply stop_of_hit. apply nth_error_In in Hqk. specialize (Hq q Hqk).
+      apply in_map_iff in Hq. destruct Hq as [[q0 Lq] [E HT]]. cbn in E. subst q0.
+      destruct (s_memo _ _ _ W q Lq HT) as [e0 [He0 Hm]]. rewrite Hl in He0. injection He0 as <-.
+      unfold hit. now rewrite Hm. }
+    assert (Hdom : wdom (g_memo st0) e = true /\
+                   ((exists i, e = ESrc i) \/ spine_miss (g_memo st0) e = true)).
+    { rewrite Hm0. destruct Hform as [[_ ->] | [Hr [a [es [Ha [Eo [Hf [Hfe [Hi Hq]]]]]]]]].
+      - split; [reflexivity | left; eauto].
+      - destruct (app_parts wf Hwf a Ha) as [_ [_ [Htwf [Htop _]]]].
+        assert (HaT : ~ In (a_out a) (map fst T)) by (rewrite Eo; exact HnT).
+        destruct (wdom_inst (g_memo st) es (a_tx a)) as [e1 [Ei [Hd Hs]]].
+        + erewrite feeds_length by eauto. exact Htwf.
+        + apply (Hleaves a es Ha Hfe Hq).
+        + intros i Hi0. split; apply (ids_miss X st T a W Ha HaT i); auto.
+        + rewrite Hi in Ei. injection Ei as <-. split; [exact Hd|].
+          unfold ttop in Htop. apply orb_true_iff in Htop. destruct Htop as [Hsp | Han].
+          * right. now apply Hs.
+          * left. destruct (a_tx a); try discriminate. cbn in Hi. injection Hi as <-. eauto. }
+    destruct Hdom as [Hdom Hkind].
+    destruct (add_expr_w add_from Hok e c st0 Hdom Hinv0 Hcur0) as [L [st2 [Ea P]]].
+    exists L, st2. split; [exact Ea|].
+    destruct P as [Psh Pveq Pnames Pspine Pnd Pinv Pnext Pext Pnew Psrc].
+    rewrite Hm0 in *. rewrite Htr0 in Pveq. rewrite Hn0 in *.
+    assert (Hpres : mpres (g_memo st) (g_memo st2)) by (destruct Pext as [Pe _]; exact Pe).
+    (* the two kinds of result *)
+    assert (Hres : (exists i n, e = ESrc i /\ L = LLeaf n /\ memo_find (0, i) (g_memo st2) = Some n) \/
+                   (exists o args, L = LSpine c o args /\ 2 <= fst (key_of e))).
+    { destruct Hkind as [[i ->] | Hs].
+      - left. inversion Psh; subst. exists i, n. auto.
+      - right. destruct (Pspine Hs) as [o [args ->]]. exists o, args. split; [reflexivity|].
+        destruct e; cbn in Hs; try discriminate; cbn; lia. }
+    assert (HlnL : lnode L < g_next st2).
+    { destruct Hres as [[i [n [_ [-> Hm]]]] | [o [args [-> _]]]]; cbn [lnode].
+      - destruct Pinv as [_ [P2 _]]. apply (P2 _ _ (memo_find_In _ _ _ Hm)).
+      - unfold c. lia. }
+    assert (Hold_lt : forall k n, In (k, n) (g_memo st) -> n < c).
+    { intros k n Hk. destruct Hinv as [_ [I2 _]]. apply (I2 k n Hk). }
+    assert (HnamesL : forall x, In x (names L) -> c <= x < g_next st2).
+    { intros x Hx. destruct (Pnames x Hx) as [-> | H]; unfold c in *; lia. }
+    assert (Hpres' : mpres (g_memo st2) ((key_of e, lnode L) :: g_memo st2)).
+    { apply mpres_set. destruct Hres as [[i [n [-> [-> Hm]]]] | [o [args [-> Htag]]]].
+      - right. exact Hm.
+      - left. destruct Pext as [_ Pe2]. rewrite Pe2 by lia. exact Hmiss. }
+    split; [|split; [lia | unfold set_memo; cbn [g_memo]; eapply mpres_trans; eauto]].
+    unfold set_memo.
+    constructor; cbn [g_tr g_memo g_next].
+    - (* WInv *)
+      destruct Pinv as [P1 [P2 P3]]. split; [exact P1|]. split.
+      + intros k n [[= <- <-] | Hk]; [exact HlnL | apply (P2 k n Hk)].
+      + apply minj_set; [exact P3|].
+        destruct Hres as [[i [n [-> [-> Hm]]]] | [o [args [-> Htag]]]]; cbn [lnode key_of].
+        * left. exact Hm.
+        * right. intros k' Hk'. apply memo_find_In in Hk'.
+          destruct (Pnew _ _ Hk') as [H | [_ [_ H]]].
+          -- apply Hold_lt in H. lia.
+          -- apply H. cbn. auto.
+    - (* s_memo *)
+      intros r' L' HT'. apply in_app_iff in HT'. destruct HT' as [HT' | [[= <- <-] | []]].
+      + destruct (s_memo _ _ _ W r' L' HT') as [e' [He' Hm']]. exists e'. split; [exact He'|].
+        apply Hpres', Hpres, Hm'.
+      + exists e. split; [exact He|]. cbn [memo_find]. now rewrite key_eqb_refl.
+    - (* s_veq *)
+      intros t Hv. rewrite (Pveq t Hv), !in_app_iff, flowT_app, (s_veq _ _ _ W t Hv), in_app_iff.
+      rewrite flowT_single. tauto.
+    - (* s_nd *)
+      rewrite namesT_app, namesT_single.
+      apply NoDup_app_intro; [apply (s_nd _ _ _ W) | exact Pnd |].
+      intros x Hx Hx'. apply (s_lt _ _ _ W) in Hx. apply HnamesL in Hx'. unfold c in *. lia.
+    - (* s_lt *)
+      intros x Hx. rewrite namesT_app in Hx. apply in_app_iff in Hx. destruct Hx as [Hx | Hx].
+      + apply (s_lt _ _ _ W) in Hx. lia.
+      + rewrite namesT_single in Hx. apply HnamesL in Hx. lia.
+    - (* s_src *)
+      intros i n Hk.
+      assert (Hk2 : In ((0, i), n) (g_memo st2)).
+      { destruct Hk as [E | Hk]; [|exact Hk]. injection E as E1 E2.
+        destruct Hres as [[i0 [n0 [-> [-> Hm]]]] | [o [args [_ Htag]]]].
+        - cbn in E1, E2. injection E1 as <-. subst n. now apply memo_find_In.
+        - rewrite E1 in Htag. cbn in Htag. lia. }
+      rewrite namesT_app, in_app_iff, namesT_single.
+      destruct (Pnew _ _ Hk2) as [H | [_ [Hn Hnl]]].
+      + intros [Hx | Hx].
+        * apply (s_src _ _ _ W i n H Hx).
+        * apply HnamesL in Hx. apply Hold_lt in H. lia.
+      + intros [Hx | Hx]; [|exact (Hnl Hx)].
+        apply (s_lt _ _ _ W) in Hx. unfold c in *. lia.
+    - (* s_shape *)
+      intros r' L' HT' Hr'. apply in_app_iff in HT'. destruct HT' as [HT' | [[= <- <-] | []]].
+      + destruct (s_shape _ _ _ W r' L' HT' Hr') as [a [es [Hf [Hfe Hts]]]].
+        exists a, es. split; [exact Hf|]. split; [exact Hfe|].
+        eapply tshape_mono; [| |exact Hts].
+        * intros k n Hl. eapply lfm_mono; [|exact Hl]. eapply mpres_trans; eauto.
+        * intros i n Hl. unfold anm in *. apply Hpres', Hpres, Hl.
+      + destruct Hform as [[Hs _] | [_ [a [es [Ha [Eo [Hf [Hfe [Hi Hq]]]]]]]]]; [contradiction|].
+        exists a, es. split; [exact Hf|]. split; [exact Hfe|].
+        assert (HaT : ~ In (a_out a) (map fst T)) by (rewrite Eo; exact HnT).
+        eapply tshape_mono; [| |apply (tshape_of_wshape (stopf (g_memo st)) (g_memo st2) es (a_tx a) e L Hi)].
+        * intros k n Hl. eapply lfm_mono; [|exact Hl]. exact Hpres'.
+        * intros i n Hl. unfold anm in *. apply Hpres', Hl.
+        * apply (Hleaves a es Ha Hfe Hq).
+        * intros i o Hi0. cbn [stopf]. unfold hit. cbn [key_of].
+          now rewrite (ids_miss X st T a W Ha HaT i 2 Hi0).
+        * intros i f x fn Hi0. cbn [stopf]. unfold hit. cbn [key_of].
+          now rewrite (ids_miss X st T a W Ha HaT i 3 Hi0) by lia.
+        * exact Psh.
+    - (* s_leaf *)
+      intros r' L' HT' Hr'. apply in_app_iff in HT'. destruct HT' as [HT' | [[= <- <-] | []]].
+      + apply (s_leaf _ _ _ W r' L' HT' Hr').
+      + destruct Hform as [[_ ->] | [Hns _]]; [|contradiction].
+        inversion Psh; subst. eauto.
+    - (* s_closed *)
+      intros r' L' a HT' Hf q Hq. rewrite map_app, in_app_iff.
+      apply in_app_iff in HT'. destruct HT' as [HT' | [[= <- <-] | []]].
+      + left. apply (s_closed _ _ _ W r' L' a HT' Hf q Hq).
+      + left. destruct Hform as [[Hs _] | [_ [a' [es [Ha [Eo [Hf' [_ [_ Hq']]]]]]]]].
+        * exfalso. destruct (find_app_some wf r a Hf) as [Ha Eo].
+          apply (src_not_out wf Hwf r Hs). rewrite <- Eo. unfold outs. now apply in_map.
+        * rewrite Hf in Hf'. injection Hf' as <-. now apply Hq'.
+    - (* s_ndT *)
+      rewrite map_app. cbn [map fst]. apply NoDup_app_intro; [apply (s_ndT _ _ _ W) | |].
+      + repeat constructor. intros [].
+      + intros x Hx [<- | []]. contradiction.
+    - (* s_keys *)
+      intros k n Hk Htag. destruct Hk as [[= <- <-] | Hk].
+      + exists r, L, e. split; [apply in_app_iff; cbn; auto | auto].
+      + destruct (Pnew _ _ Hk) as [H | [H0 _]]; [|lia].
+        destruct (s_keys _ _ _ W k n H Htag) as [r' [L' [e' [HT' [He' Ek]]]]].
+        exists r', L', e'. split; [apply in_app_iff; auto | auto].
+    - (* s_own *)
+      intros i n Hk. rewrite map_app. cbn [map fst].
+      assert (HrT' : In r (map fst T ++ [r])) by (apply in_app_iff; cbn; auto).
+      assert (Hmine : forall i0, In i0 (srcs_of (stopf (g_memo st)) e) ->
+        (In i0 srcs /\ In i0 (map fst T ++ [r])) \/
+        (exists a, In a apps /\ In (a_out a) (map fst T ++ [r]) /\ In i0 (own_ids a))).
+      { intros i0 Hi0.
+        destruct Hform as [[Hs ->] | [Hns [a [es [Ha [Eo [Hf [Hfe [Hi Hq]]]]]]]]].
+        - cbn in Hi0. destruct Hi0 as [<- | []]. left. auto.
+        - destruct (srcs_of_inst (stopf (g_memo st)) es (a_tx a) e Hi (Hleaves a es Ha Hfe Hq) i0 Hi0)
+            as [Hin | [k Hk0]].
+          + right. exists a. split; [exact Ha|]. split; [rewrite Eo; exact HrT'|].
+            unfold own_ids. apply in_app_iff. auto.
+          + destruct (feeds_leaf es a k _ Ha Hfe Hk0) as [q [Hqk [[i1 [[= <-] [Hind _]]] | Hl]]].
+            * right. exists a. split; [exact Ha|]. split; [rewrite Eo; exact HrT'|].
+              unfold own_ids. apply in_app_iff. auto.
+            * apply nth_error_In in Hqk. specialize (Hq q Hqk).
+              destruct (in_dec Nat.eq_dec q srcs) as [Hqs | Hqs].
+              -- rewrite (src_expr q Hqs) in Hl. injection Hl as <-. left. split; [exact Hqs|].
+                 apply in_app_iff. auto.
+              -- destruct (tool_expr q _ Hl Hqs) as [aq [esq [Haq [Eoq [_ [_ [_ [Kk Ki]]]]]]]].
+                 cbn [key_of] in Kk. rewrite <- Kk in Ki. cbn [snd] in Ki.
+                 right. exists aq. split; [exact Haq|]. split; [rewrite Eoq; apply in_app_iff; auto|].
+                 unfold own_ids. apply in_app_iff. auto. }
+      assert (Hk2 : In ((0, i), n) (g_memo st2) \/ e = ESrc i).
+      { destruct Hk as [E | Hk]; [|left; exact Hk]. injection E as E1 E2.
+        destruct Hres as [[i0 [n0 [-> [-> Hm]]]] | [o [args [_ Htag]]]].
+        - cbn in E1. injection E1 as <-. auto.
+        - rewrite E1 in Htag. cbn in Htag. lia. }
+      destruct Hk2 as [Hk2 | ->].
+      + destruct (Psrc _ _ Hk2) as [H | [i0 [[= <-] Hi0]]].
+        * destruct (s_own _ _ _ W i n H) as [[Hs HT] | [a [Ha [HT Hi]]]].
+          -- left. split; [exact Hs | apply in_app_iff; auto].
+          -- right. exists a. split; [exact Ha|]. split; [apply in_app_iff; auto | exact Hi].
+        * apply Hmine, Hi0.
+      + apply Hmine. cbn. auto.
+  Qed.
+
+  Lemma in_dom_lookup r : In r (map fst ex) -> exists e, elookup r ex = Some e.
+  Proof.
+    intros H. destruct (elookup r ex) as [e|] eqn:E; [eauto|]. apply elookup_None in E. contradiction.
+  Qed.
+
+  Lemma tool_inputs r e a : elookup r ex = Some e -> ~ In r srcs -> find_app wf r = Some a ->
+    forall q, In q (a_ins a) -> In q (map fst ex) /\ rnk q < rnk r.
+  Proof.
+    intros He Hr Hf q Hq.
+    destruct (tool_expr r e He Hr) as [a' [es [Ha [Eo [Hf' [Hfe _]]]]]].
+    rewrite Hf in Hf'. injection Hf' as <-.
+    destruct (In_nth_error _ _ Hq) as [k Hk].
+    destruct (feeds_nth wf pt ex _ _ _ k q Hfe Hk) as [e0 [He0 _]]. split.
+    - eapply elookup_dom; eauto.
+    - destruct (app_parts wf Hwf a Ha) as [Hins _]. rewrite <- Eo. apply Hins, Hq.
+  Qed.
+
+  Definition W2T (fuel : nat) : Prop := forall X r st T,
+    WS X st T -> In r (map fst ex) -> rnk r < fuel ->
+    exists n st' T', w2t add_from false wf ex fuel r st = Some (n, st') /\
+      WS X st' T' /\ (exists L, In (r, L) T' /\ lnode L = n) /\
+      incl T T' /\ g_next st <= g_next st' /\ mpres (g_memo st) (g_memo st') /\
+      (forall x, In x (map fst T') -> In x (map fst T) \/ rnk x <= rnk r).
+
+  Lemma foldM_ok fuel (IH : W2T fuel) : forall rs X st T,
+    WS X st T -> (forall q, In q rs -> In q (map fst ex) /\ rnk q < fuel) ->
+    exists st' T', foldM_t (w2t add_from false wf ex fuel) rs st = Some st' /\
+      WS X st' T' /\ incl T T' /\ (forall q, In q rs -> In q (map fst T')) /\
+      g_next st <= g_next st' /\ mpres (g_memo st) (g_memo st') /\
+      (forall x, In x (map fst T') -> In x (map fst T) \/ exists q, In q rs /\ rnk x <= rnk q).
+  Proof.
+    induction rs as [|q rs IHrs]; intros X st T W Hrs; cbn [foldM_t].
+    - exists st, T. split; [reflexivity|]. split; [exact W|]. split; [apply incl_refl|].
+      split; [intros q []|]. split; [lia|]. split; [apply mpres_refl | auto].
+    - destruct (Hrs q (or_introl eq_refl)) as [Hq1 Hq2].
+      destruct (IH X q st T W Hq1 Hq2) as [n [st1 [T1 [Ew [W1 [[L [HL _]] [Hi1 [Hn1 [Hp1 Hr1]]]]]]]]].
+      rewrite Ew.
+      destruct (IHrs X st1 T1 W1) as [st2 [T2 [Ef [W2 [Hi2 [Hq2' [Hn2 [Hp2 Hr2]]]]]]]].
+      { intros q' Hq'. apply Hrs. cbn. auto. }
+      exists st2, T2. split; [exact Ef|]. split; [exact W2|].
+      split; [eapply incl_tran; eauto|]. split; [|split; [lia|split; [eapply mpres_trans; eauto|]]].
+      + intros q' [<- | Hq']; [|now apply Hq2'].
+        apply in_map_iff. exists (q, L). split; [reflexivity | apply Hi2, HL].
+      + intros x Hx. destruct (Hr2 x Hx) as [H | [q' [Hq' Hle]]].
+        * destruct (Hr1 x H) as [H' | H']; [auto|]. right. exists q. cbn. auto.
+        * right. exists q'. cbn. auto.
+  Qed.
+
+  Lemma w2t_ok : forall fuel, W2T fuel.
+  Proof.
+    induction fuel as [|fuel IH]; intros X r st T W Hr Hrk; [lia|].
+    destruct (in_dom_lookup r Hr) as [e He].
+    cbn [w2t]. rewrite He.
+    destruct (memo_find (key_of e) (g_memo st)) as [n|] eqn:Em.
+    { destruct (hit_in_T X st T r e n W He Em) as [L [HT HL]].
+      exists n, st, T. split; [reflexivity|]. split; [exact W|]. split; [eauto|].
+      split; [apply incl_refl|]. split; [lia|]. split; [apply mpres_refl | auto]. }
+    assert (HnT : ~ In r (map fst T)).
+    { intros H. apply in_map_iff in H. destruct H as [[r0 L] [E HT]]. cbn in E. subst r0.
+      destruct (s_memo _ _ _ W r L HT) as [e' [He' Hm']]. rewrite He in He'. injection He' as <-.
+      rewrite Em in Hm'. discriminate. }
+    destruct (memb r (w_srcs wf)) eqn:Es.
+    - (* a workflow source *)
+      apply memb_In in Es.
+      destruct (add_step X st T r e W He HnT (or_introl Es)) as [L [st2 [Ea [W2 [Hn2 Hp2]]]]].
+      rewrite Ea. exists (lnode L), (set_memo (key_of e) (lnode L) st2), (T ++ [(r, L)]).
+      split; [reflexivity|]. split; [exact W2|]. split.
+      { exists L. split; [apply in_app_iff; cbn; auto | reflexivity]. }
+      split; [apply incl_appl, incl_refl|]. split; [cbn [set_memo g_next]; exact Hn2|]. split; [exact Hp2|].
+      + intros x Hx. rewrite map_app in Hx. apply in_app_iff in Hx. destruct Hx as [Hx | [<- | []]]; auto.
+    - (* the output of a tool application *)
+      apply memb_false in Es.
+      destruct (tool_expr r e He Es) as [a [es [Ha [Eo [Hf _]]]]].
+      rewrite Hf.
+      destruct (foldM_ok fuel IH (a_ins a) X st T W) as [st1 [T1 [Ef [W1 [Hi1 [Hq1 [Hn1 [Hp1 Hr1]]]]]]]].
+      { intros q Hq. destruct (tool_inputs r e a He Es Hf q Hq) as [A B]. split; [exact A|].
+        unfold rnk in *. lia. }
+      rewrite Ef.
+      assert (HnT1 : ~ In r (map fst T1)).
+      { intros H. destruct (Hr1 r H) as [H' | [q [Hq Hle]]]; [contradiction|].
+        destruct (tool_inputs r e a He Es Hf q Hq) as [_ B]. unfold rnk in *. lia. }
+      destruct (add_step X st1 T1 r e W1 He HnT1) as [L [st2 [Ea [W2 [Hn2 Hp2]]]]].
+      { right. exists a. auto. }
+      rewrite Ea. exists (lnode L), (set_memo (key_of e) (lnode L) st2), (T1 ++ [(r, L)]).
+      split; [reflexivity|]. split; [exact W2|]. split.
+      { exists L. split; [apply in_app_iff; cbn; auto | reflexivity]. }
+      split; [apply incl_appl; exact Hi1|]. split; [cbn [set_memo g_next]; lia|]. split.
+      + eapply mpres_trans; eauto.
+      + intros x Hx. rewrite map_app in Hx. apply in_app_iff in Hx. destruct Hx as [Hx | [<- | []]]; auto.
+        destruct (Hr1 x Hx) as [H | [q [Hq Hle]]]; [auto|]. right.
+        destruct (tool_inputs r e a He Es Hf q Hq) as [_ B]. unfold rnk in *. lia.
   Qed.
 End S2.
